@@ -1,0 +1,24 @@
+//go:build verif
+
+package planner
+
+// Contracts checked by /verif's govc.  Comments only; build tag "verif".
+
+//@ unit planner
+//@
+//@ extern base.Compare(a, b) -> (c)
+//@   pure
+//@   opt alias=compareOf sig=iface,iface:int
+//@ extern planner.getDocProp(obj, prop) -> (v)
+//@   pure
+//@   opt alias=docProp sig=core.Doc,[]int:iface
+//@
+//@ // ===== C08: ordering sorts by the first key and breaks ties by each following key ====================
+//@ // less(A, B) holds exactly when, at the first key on which A and B differ, A comes first in that
+//@ // key's direction (DESC = 2 in mapper.OrderDirection... the code treats every other value as ASC)
+//@ func (*valuesNode).docValueLess -> (r)
+//@   loop 1 invariant forall(i, 0 <= i && i <= rangeindex, compareOf(docProp(docA, rangeslice[i].FieldIndexes), docProp(docB, rangeslice[i].FieldIndexes)) == 0)
+//@   loop 1 invariant sameslice(rangeslice, old(n.ordering))
+//@   ensures forall(k, 0 <= k && k < len(old(n.ordering)) && forall(i, 0 <= i && i < k, compareOf(docProp(docA, old(n.ordering)[i].FieldIndexes), docProp(docB, old(n.ordering)[i].FieldIndexes)) == 0) && compareOf(docProp(docA, old(n.ordering)[k].FieldIndexes), docProp(docB, old(n.ordering)[k].FieldIndexes)) != 0, r == ite(old(n.ordering)[k].Direction == mapper.DESC, compareOf(docProp(docA, old(n.ordering)[k].FieldIndexes), docProp(docB, old(n.ordering)[k].FieldIndexes)) > 0, compareOf(docProp(docA, old(n.ordering)[k].FieldIndexes), docProp(docB, old(n.ordering)[k].FieldIndexes)) < 0))
+//@   ensures forall(i, 0 <= i && i < len(old(n.ordering)), compareOf(docProp(docA, old(n.ordering)[i].FieldIndexes), docProp(docB, old(n.ordering)[i].FieldIndexes)) == 0) ==> !r
+//@   tags C08
